@@ -145,38 +145,40 @@ Fixpoint after_followup (s:str) (line:nat) : (str * nat * bool) :=
               else if isspace c then after_followup r line
               else (r, line, false)
   end.
+(* the newline-run part of the scanner; [k] continues the outer scan (it is [sfs f] below) *)
+Fixpoint nlrun (k : str -> nat -> str * nat * option nat) (g:nat) (t:str) (ln:nat) {struct g}
+  : str * nat * option nat :=
+  match g with 0%nat => (t, ln, None) | S g' =>
+  match t with
+  | [] => ([], ln, Some 0%nat)
+  | _ :: t1 =>
+    let ln1 := S ln in
+    match t1 with
+    | [] => ([], ln1, Some 0%nat)
+    | d :: _ =>
+      if Ascii.eqb d nl then nlrun k g' t1 ln1
+      else if negb (prefixb intro t1) then k (drop 1 t1) ln1
+      else
+        let t2 := drop (length intro) t1 in
+        let t3 := skip_nonspace t2 in
+        match t3 with [] => ([], ln1, Some 0%nat) | _ =>
+        let t4 := skip_space t3 in
+        match t4 with [] => ([], ln1, Some 0%nat) | _ =>
+        if prefixb f_end t4 then
+          let '(t5, ln5, returned) := after_followup (drop (length f_end) t4) ln1 in
+          if returned then (t5, ln5, Some 0%nat) else k t5 ln5
+        else if prefixb f_on t4 then
+          let '(t5, ln5, returned) := after_followup (drop (length f_on) t4) ln1 in
+          if returned then (t5, ln5, Some 1%nat) else k t5 ln5
+        else k t4 ln1
+        end end
+    end
+  end end.
 Fixpoint sfs (fuel:nat) (s:str) (line:nat) : str * nat * option nat :=
   match fuel with 0%nat => (s, line, None) | S f =>
   match s with
   | [] => ([], line, Some 0%nat)
   | c :: r =>
     if negb (Ascii.eqb c nl) then sfs f r line
-    else
-      (fix nlrun (g:nat) (t:str) (ln:nat) {struct g} : str * nat * option nat :=
-         match g with 0%nat => (t, ln, None) | S g' =>
-         match t with
-         | [] => ([], ln, Some 0%nat)
-         | _ :: t1 =>
-           let ln1 := S ln in
-           match t1 with
-           | [] => ([], ln1, Some 0%nat)
-           | d :: _ =>
-             if Ascii.eqb d nl then nlrun g' t1 ln1
-             else if negb (prefixb intro t1) then sfs f (drop 1 t1) ln1
-             else
-               let t2 := drop (length intro) t1 in
-               let t3 := skip_nonspace t2 in
-               match t3 with [] => ([], ln1, Some 0%nat) | _ =>
-               let t4 := skip_space t3 in
-               match t4 with [] => ([], ln1, Some 0%nat) | _ =>
-               if prefixb f_end t4 then
-                 let '(t5, ln5, returned) := after_followup (drop (length f_end) t4) ln1 in
-                 if returned then (t5, ln5, Some 0%nat) else sfs f t5 ln5
-               else if prefixb f_on t4 then
-                 let '(t5, ln5, returned) := after_followup (drop (length f_on) t4) ln1 in
-                 if returned then (t5, ln5, Some 1%nat) else sfs f t5 ln5
-               else sfs f t4 ln1
-               end end
-           end
-         end end) (S (length s)) s line
+    else nlrun (sfs f) (S (length s)) s line
   end end.
